@@ -42,7 +42,7 @@ FUNCTION = {
     'dist': 'floatDistance', 'gdist': 'float_distance', 'vdist': 'floatDistance(vec)', 'gvdist': 'float_distance(vec)',
     'distN': 'floatDistance(x, nextFloat(x, n))', 'distP': 'floatDistance(x, prevFloat(x, n))',
     'ft': 'detail::float_t accessors',
-    'eqU_s': 'equal_ulps_scalar', 'eqU_v': 'equal_ulps_vector', 'eqU_vk': 'equal_ulps_vector', 'eqU_m': 'equal_ulps_matrix',
+    'eqU_s': 'equal_ulps_scalar', 'eqU_v': 'equal_ulps_vector', 'eqU_vk': 'equal_ulps_vector', 'eqU_m': 'equal_ulps_matrix', 'eqU_mS': 'equal_ulps_matrix',
     'eqE_s': 'equal_epsilon_scalar', 'eqE_v': 'equal_epsilon_vector', 'eqE_vv': 'equal_epsilon_vector', 'eqE_m': 'equal_epsilon_matrix',
     'eqE_q': 'equal_epsilon_quaternion',
     'eps_s': 'epsilonEqual', 'eps_v': 'epsilonEqual', 'eps_vv': 'epsilonEqual', 'eps_q': 'epsilonEqual',
